@@ -4,20 +4,10 @@
 (* after a complete block), all suffixes over the 16-symbol alphabet up to    *)
 (* MaxSuffix steps.  Every explored input is exported with the blocks the     *)
 (* specification assigns to it (T2).                                          *)
-EXTENDS BibGrammar, Json
+EXTENDS SplitterAlphabet, Json
 CONSTANTS MaxSuffix, PrefixSel      \* PrefixSel: set of indices into PrefixLib
 VARIABLES toks, s, n
 vars == <<toks, s, n>>
-
-\* abstract alphabet: name -> token.  w identifies the exact text (W1/W2 two different words, WB a lone
-\* backslash, WA an "@word" that is not followed by "{")
-T == [ATE |-> [k |-> "ATE", w |-> 10], ATC |-> [k |-> "ATC", w |-> 11], ATP |-> [k |-> "ATP", w |-> 12],
-      ATS |-> [k |-> "ATS", w |-> 13], LB |-> [k |-> "LB", w |-> 1], RB |-> [k |-> "RB", w |-> 2],
-      QT |-> [k |-> "QT", w |-> 3], CM |-> [k |-> "CM", w |-> 4], EQ |-> [k |-> "EQ", w |-> 5],
-      NL |-> [k |-> "NL", w |-> 6], SP |-> [k |-> "SP", w |-> 7], ESC |-> [k |-> "ESC", w |-> 8],
-      HASH |-> [k |-> "H", w |-> 9], W1 |-> [k |-> "W", w |-> 21], W2 |-> [k |-> "W", w |-> 22], WB |-> [k |-> "W", w |-> 23], WA |-> [k |-> "W", w |-> 24]]
-Alphabet == DOMAIN T
-Of(names) == [i \in DOMAIN names |-> T[names[i]]]
 
 PrefixLib == <<
   <<>>,
@@ -36,7 +26,6 @@ PrefixLib == <<
   <<"ATE","LB","W1","CM","NL","W2","EQ","LB","NL">>,
   <<"ATE","LB","W1","CM","EQ","W1","CM">>, <<"ATS","LB","EQ">>, <<"ATE","LB","CM">>
 >>
-WClass == {"W1", "W2", "WA", "WB", "HASH"}
 
 Init == \E p \in PrefixSel :
           /\ toks = Of(PrefixLib[p])
@@ -44,13 +33,8 @@ Init == \E p \in PrefixSel :
           /\ n = 0
 Next == /\ n < MaxSuffix
         /\ \E a \in Alphabet :
-             \* adjacent plain-text tokens would lex as one token; a lone backslash is generated before a newline only
-             /\ ~(Len(toks) > 0 /\ toks[Len(toks)].k \in {"W", "H"} /\ a \in WClass)
-             /\ ~(Len(toks) > 0 /\ toks[Len(toks)].k = "SP" /\ a = "SP")
-             /\ ~(Len(toks) > 0 /\ toks[Len(toks)].w = 23 /\ a # "NL")
-             /\ ~(Len(toks) > 0 /\ toks[Len(toks)].w = 24 /\ a \in {"LB", "SP"})
-             /\ LET add == IF IsAT(T[a].k) THEN <<T[a], T["LB"]>> ELSE <<T[a]>>
-                    t2 == toks \o add
+             /\ OkNext(toks, a)
+             /\ LET t2 == toks \o Add(a)
                 IN /\ toks' = t2
                    /\ s' = RunFrom(t2, NoFe, s, Len(toks) + 1)
                    /\ n' = n + 1
